@@ -76,6 +76,7 @@ func genCLI(seed uint64, prop, tier, mode string) *Plan {
 		if o == nil {
 			o = drawCorpusObject(g, idx, KCert)
 		}
+		o = maybeSynth(g, idx, o, 0.2)
 		if !faultFree && g.Chance(0.1) {
 			if v := flipVariant(g, o); v != nil {
 				o = v
